@@ -13,6 +13,7 @@ import LfsModel.Download
 import LfsModel.TQTrace
 import LfsModel.Backoff
 import LfsModel.FilterProcess
+import LfsModel.CrashExec
 import LfsModel.Gen
 open Lfs
 
@@ -276,6 +277,25 @@ def c14 : List String → String
     | _, _ => "bad-op"
   | _ => "bad-op"
 
+def parseCrashWord (w : String) : Option CrashExec.Word :=
+  match w.splitOn ":" with
+  | ["have", a, n, sha] => some (.have_ a n sha)
+  | ["create", a, n] => some (.create a n)
+  | ["unlink", a, n] => some (.unlink a n)
+  | ["rename", sa, sn, da, dn, sha] => some (.move false sa sn da dn sha)
+  | ["link", sa, sn, da, dn, sha] => some (.move true sa sn da dn sha)
+  | _ => none
+
+def c09 : List String → String
+  | ["exec", ws] =>
+    match (ws.splitOn ",").mapM parseCrashWord with
+    | none => "bad-op"
+    | some words =>
+      match CrashExec.replay (fun _ => none) words 0 with
+      | none => s!"ok {words.length}"
+      | some i => s!"refused at operation {i}: {(ws.splitOn ",").getD i "?"}"
+  | _ => "bad-op"
+
 def answer (line : String) : String :=
   match line.splitOn " " with
   | "C07" :: rest => c07 rest
@@ -286,6 +306,7 @@ def answer (line : String) : String :=
   | "C02" :: rest => c02 rest
   | "TQ" :: rest => tqTrace rest
   | "C14" :: rest => c14 rest
+  | "C09" :: rest => c09 rest
   | "C15" :: rest => c15 rest
   | _ => "bad-op"
 
